@@ -459,6 +459,8 @@ class _FuncAnalysis:
                 for b in base:
                     if b[0] == 'fresh' and ('[k:' + n.slice.value + ']') in self.heap.get(b, {}):
                         out |= self.heap[b]['[k:' + n.slice.value + ']'] | self.heap[b].get('[*]', set())
+                    elif b[0] in ('param', 'global'):
+                        out.add(ext_path(b, '[k:' + n.slice.value + ']'))     # constant-key access path
                     else:
                         out |= self.elems({b})
                 return out
@@ -643,7 +645,14 @@ class _FuncAnalysis:
             if short in MUTATORS:
                 self.mutate(recv, n, f'.{short}() mutates its receiver')
                 allv = set()
-                for av in argv:
+                # what the call stores in the receiver: the value argument(s), never a dictionary key or an index
+                if short in ('setdefault', 'insert'):
+                    stored_args = argv[1:2]
+                elif short in ('pop', 'remove', 'clear', 'popitem', 'discard', 'sort', 'reverse'):
+                    stored_args = []
+                else:
+                    stored_args = argv
+                for av in stored_args:
                     allv |= av
                 for b in recv:
                     if b[0] in ('fresh', 'param'):
@@ -748,7 +757,7 @@ class _FuncAnalysis:
         def inst_site(src):
             if src not in site_map:
                 ns = ('fresh', (self.fi.qualname, ('call', getattr(node, 'lineno', 0),
-                                                   getattr(node, 'col_offset', 0)) + src[1][1][:2] + (src[1][0],)))
+                                                   getattr(node, 'col_offset', 0)) + src[1][1][:6] + (src[1][0],)))
                 site_map[src] = ns
                 self.heap.setdefault(ns, {})
                 for fld, vs in s.heap.get(src, {}).items():
@@ -767,8 +776,13 @@ class _FuncAnalysis:
                             if c[0] in ('param', 'global'):
                                 nxt.add(ext_path(c, step))
                             elif c[0] == 'fresh':
-                                if step == '[*]':
-                                    nxt |= self.heap.get(c, {}).get('[*]', set())
+                                if step.startswith('[k:'):
+                                    h_ = self.heap.get(c, {})
+                                    nxt |= h_.get(step, set()) | h_.get('[*]', set())
+                                elif step == '[*]':
+                                    for fld_, fs_ in self.heap.get(c, {}).items():
+                                        if fld_ == '[*]' or fld_.startswith('[k:'):
+                                            nxt |= fs_
                                 elif step == '*':
                                     for fs in self.heap.get(c, {}).values():
                                         nxt |= fs
